@@ -8,7 +8,7 @@ a closed connection raises before anything is registered.  Timing ("promptly") i
 """
 import ast
 
-from ..model import AnalysisError, src, callee_name, dotted, walk_local, calls_in, FUNC
+from ..model import AnalysisError, src, callee_name, dotted, walk_local, calls_in, FUNC, pos
 from ..flow import Sem, atoms_at, path_conditions, split_conj, always_exits
 from ..callgraph import CallGraph
 from ..common import CompletionSem, is_awaited, in_loop, ancestors, resolve_single_assign
@@ -264,7 +264,7 @@ def check(ctx):
             # guarded locally?
             guarded = False
             for n in walk_local(failall.node):
-                if isinstance(n, ast.If) and n.lineno < c.lineno:
+                if isinstance(n, ast.If) and pos(n) < pos(c):
                     for e, pol in split_conj(n.test, True):
                         if isinstance(e, ast.Compare) and isinstance(e.ops[0], ast.Is) and src(e.left) == p and isinstance(e.comparators[0], ast.Constant) and e.comparators[0].value is None:
                             if any(isinstance(s, ast.Assign) and any(isinstance(t, ast.Name) and t.id == p for t in s.targets) and isinstance(s.value, ast.Call) for s in n.body):
@@ -361,8 +361,8 @@ def check(ctx):
             ok = len(snd) == 1 and len(snd[0].args) >= 2 and isinstance(snd[0].args[1], ast.Name) and snd[0].args[1].id == idc
             ctx.ob("C14-R5", call.fq, "the frame is sent under the same id", ok, node=r, construct="send uses this call's id")
             aws = [n for n in walk_local(co) if isinstance(n, ast.Await)]
-            first_await = min(((a.lineno, a.col_offset) for a in aws), default=(10**9, 0))
-            ok = (r.lineno, r.col_offset) < first_await
+            first_await = min((pos(a) for a in aws), default=(10**9, 0))
+            ok = pos(r) < first_await
             ctx.ob("C14-R5", call.fq, "the future is registered before the first suspension point (a response cannot arrive while it is unregistered)", ok, node=r,
                    construct="registration precedes the first await", msg="the pending future is registered after an await: if the response is read while the sender is suspended (write backpressure), the listener finds no entry for its id, treats the response as a request, and the caller waits forever")
             ret_aw = [a for a in aws if isinstance(a.value, ast.Name) and a.value.id == fut]
